@@ -163,12 +163,63 @@ def freeze(obj):
     return [repr(obj), obj.render(backend()), str(obj), len(obj), dump(obj)]
 
 
+def _esc(s):
+    out = []
+    for ch in s:
+        if ch == '"':
+            out.append('\\"')
+        elif ch == '\\':
+            out.append('\\\\')
+        elif ch == '\n':
+            out.append('\\n')
+        elif ch == '\r':
+            out.append('\\r')
+        elif ord(ch) < 0x20:
+            out.append('\\u%04x' % ord(ch))
+        else:
+            out.append(ch)
+    return ''.join(out)
+
+
+def pack(x):
+    """Compact JSON text of a value, byte for byte what the Lean driver's `Json.compress` prints (keys sorted;
+    only the escapes for quote, backslash, \\n, \\r and \\u00XX for the other control characters).  Observables are
+    exchanged and compared as such texts; `json.loads(pack(x)) == x`."""
+    s = json.dumps(x, sort_keys=True, separators=(',', ':'), ensure_ascii=False)
+    if '\\t' in s or '\\b' in s or '\\f' in s or '\\u' in s:
+        return _pack_slow(x)
+    return s
+
+
+def _pack_slow(x):
+    if x is None:
+        return 'null'
+    if x is True:
+        return 'true'
+    if x is False:
+        return 'false'
+    if isinstance(x, int):
+        return str(x)
+    if isinstance(x, str):
+        return '"' + _esc(x) + '"'
+    if isinstance(x, (list, tuple)):
+        return '[' + ','.join(_pack_slow(y) for y in x) + ']'
+    if isinstance(x, dict):
+        return '{' + ','.join('"' + _esc(k) + '":' + _pack_slow(x[k]) for k in sorted(x)) + '}'
+    raise TypeError(type(x))
+
+
+def obs(obj):
+    """class, rendering with the tracing backend, str, len -- as one compact text"""
+    return pack({'cls': cls_of(obj), 'sem': trace(obj), 'str': str(obj), 'len': len(obj)})
+
+
 def val(obj):
-    return {'cls': cls_of(obj), 'tree': dump(obj), 'sem': trace(obj), 'str': str(obj), 'len': len(obj)}
+    return [pack(dump(obj)), obs(obj)]
 
 
 def part_snap(obj):
-    return {'cls': cls_of(obj), 'tree': dump(obj), 'sem': trace(obj)}
+    return [pack(dump(obj)), pack({'cls': cls_of(obj), 'sem': trace(obj)})]
 
 
 def table(results):
@@ -176,7 +227,7 @@ def table(results):
     vals = []
     idx = []
     for r in results:
-        k = json.dumps(r, sort_keys=True)
+        k = tuple(r)
         if k not in seen:
             seen[k] = len(vals)
             vals.append(r)
@@ -245,7 +296,7 @@ def _perform(rt, cur, op, o, operands):
             raise TypeError('split did not return a list')
         rejoin = None
         if sep is not None:
-            rejoin = trace(rt.String(sep).join(parts))
+            rejoin = pack(trace(rt.String(sep).join(parts)))
         res = {'parts': [part_snap(p) for p in parts], 'rejoin': rejoin}
         pick = op.get('pick')
         if pick is not None and parts:
@@ -270,28 +321,38 @@ def _perform(rt, cur, op, o, operands):
             try:
                 out.append(val(cur[i]))
             except IndexError:
-                out.append('IndexError')
+                out.append(['', 'IndexError'])
         return cur, table(out)
     raise ValueError(o)
+
+
+QUERIES = ('eq', 'startswith', 'endswith', 'contains', 'isalpha', 'slicetab', 'indextab')
+
+
+def is_query(op):
+    return op['o'] in QUERIES or (op['o'] == 'split' and op.get('pick') is None)
+
+
+def snap(obj, res, frozen_ok):
+    return {'t': pack(dump(obj)), 'v': obs(obj), 'r': res, 'f': frozen_ok}
 
 
 def impl(case):
     out = []
     try:
         start = build(case['tree'])
-        s0 = val(start)
-        s0.update(res=None, frozen_ok=True)
-        out.append(s0)
+        out.append(snap(start, None, True))
         cur = start
         before_start = freeze(start)
         for op in case['ops']:
             if case.get('fan'):
                 cur = start
             new, res, ok = apply_op(cur, op)
-            s = val(new)
-            s.update(res=res, frozen_ok=ok and freeze(start) == before_start)
-            out.append(s)
+            # a query leaves the current object alone: only its result is reported
+            out.append({'r': res, 'f': ok} if is_query(op) else snap(new, res, ok))
             cur = new
+        if freeze(start) != before_start:      # the object the history started from, after everything built on it
+            out[-1]['f'] = False
         return out
     except Exception as e:
         return {'exception': compat.pybtex_error_kind(e), 'detail': '%s' % e, 'partial': out}
@@ -308,11 +369,10 @@ def to_request(case):
 def model_out(case, reply):
     steps = reply['out']
     for s in steps:
-        s['frozen_ok'] = True
+        s['f'] = True
     return steps
 
 
-SPEC_KEYS = ('cls', 'sem', 'str', 'len')
 CLAUSE = {'add': 'concat', 'radd': 'concat', 'construction': 'construction', 'eq': 'equality', 'upper': 'case', 'lower': 'case',
           'startswith': 'prefix_suffix_contains', 'endswith': 'prefix_suffix_contains', 'contains': 'prefix_suffix_contains',
           'slicetab': 'slice', 'indextab': 'index'}
@@ -322,14 +382,20 @@ def _expand(tab):
     return [tab['vals'][k] for k in tab['idx']]
 
 
-def _cmp_val(a, b):
-    """impl value vs spec value on the spec's keys; returns the list of differing keys."""
-    if isinstance(a, str) or isinstance(b, str):
-        return [] if a == b else ['result']
-    bad = [k for k in SPEC_KEYS if a[k] != b[k]]
-    if not bad and a['len'] != runs_len(a['sem']):
-        bad = ['len!=atoms']
-    return bad
+def _show(v):
+    """packed observable -> readable dict (sem as list of [stack, chars] runs)"""
+    try:
+        return json.loads(v)
+    except Exception:
+        return v
+
+
+def _diff(va, vb):
+    a, b = _show(va), _show(vb)
+    if isinstance(a, dict) and isinstance(b, dict):
+        keys = [k for k in b if a.get(k) != b.get(k)]
+        return '%s differ: impl=%r expected=%r' % (keys, {k: a.get(k) for k in keys}, {k: b.get(k) for k in keys})
+    return 'impl=%r expected=%r' % (a, b)
 
 
 def oracle(case, impl_out, reply):
@@ -339,40 +405,48 @@ def oracle(case, impl_out, reply):
     if not isinstance(impl_out, list):
         k = len(impl_out.get('partial') or [])
         name = case['ops'][k - 1]['o'] if k else 'construction'
+        exp = None
+        if k < len(spec):
+            exp = {'value': _show(spec[k]['v']) if 'v' in spec[k] else None, 'res': spec[k].get('r')}
+            if isinstance(exp['res'], dict):
+                exp['res'] = '<table>' if 'idx' in exp['res'] else exp['res']
         return ['%s_total: %s raised %s (%s) where the string-of-pairs semantics defines the result %r' % (
-            CLAUSE.get(name, name), name, impl_out.get('exception'), impl_out.get('detail'),
-            {'sem': spec[k].get('sem'), 'res': spec[k].get('res')} if k < len(spec) else None)]
+            CLAUSE.get(name, name), json.dumps(case['ops'][k - 1]) if k else name, impl_out.get('exception'),
+            impl_out.get('detail'), exp)]
     fails = []
+    cur = impl_out[0]['v']
     for i, (a, b) in enumerate(zip(impl_out, spec)):
         op = case['ops'][i - 1] if i else None
         name = op['o'] if op else 'construction'
         clause = CLAUSE.get(name, name)
-        if not a.get('frozen_ok', True):
+        if not a.get('f', True):
             fails.append('operands_never_modified: step %d (%s) changed one of its operands' % (i, name))
             break
-        bad = _cmp_val(a, b)
-        if bad:
-            fails.append('%s: step %d (%s): %s differ from the list semantics: impl=%r expected=%r' % (
-                clause, i, json.dumps(op), bad, {k: a.get(k) for k in bad}, {k: b.get(k) for k in bad}))
+        if 'v' in a:
+            cur = a['v']
+        elif case.get('fan'):
+            cur = impl_out[0]['v']
+        if 'v' in b and a.get('v') != b['v']:
+            fails.append('%s: step %d (%s): %s' % (clause, i, json.dumps(op), _diff(a.get('v'), b['v'])))
             break
         if i == 0:
             continue
-        ra, rb = a['res'], b['res']
+        ra, rb = a['r'], b['r']
         if name == 'split':
             if 'parts' in rb:
-                pa = [{'cls': p['cls'], 'sem': p['sem']} for p in ra['parts']]
+                pa = [p[1] for p in ra['parts']]
                 if pa != rb['parts']:
-                    fails.append('split: step %d (%s): parts differ from the list split: impl=%r expected=%r' % (
-                        i, json.dumps(op), pa, rb['parts']))
+                    fails.append('split: step %d (%s) of %r: parts differ from the list split: impl=%r expected=%r' % (
+                        i, json.dumps(op), _show(cur).get('sem'), [_show(p) for p in pa], [_show(p) for p in rb['parts']]))
                     break
             if rb.get('rejoin') is not None and ra['rejoin'] != rb['rejoin']:
-                fails.append('split_join: step %d (%s): sep.join(t.split(sep)) renders %r, t renders %r' % (
-                    i, json.dumps(op), ra['rejoin'], rb['rejoin']))
+                fails.append('split_join: step %d (%s): sep.join(t.split(sep)) renders %r, the list semantics gives %r' % (
+                    i, json.dumps(op), _show(ra['rejoin']), _show(rb['rejoin'])))
                 break
         elif name in ('slicetab', 'indextab'):
-            if ra == rb:
+            if ra['idx'] == rb['idx'] and [v[1] for v in ra['vals']] == rb['vals']:
                 continue
-            ea, eb = _expand(ra), _expand(rb)
+            ea, eb = [v[1] for v in _expand(ra)], _expand(rb)
             if name == 'slicetab':
                 bs = bound_list(op['lo'], op['hi'])
                 keys = [(x, y) for x in bs for y in bs]
@@ -380,24 +454,23 @@ def oracle(case, impl_out, reply):
                 keys = list(range(op['lo'], op['hi'] + 1))
             hit = None
             for key, va, vb in zip(keys, ea, eb):
-                bad = _cmp_val(va, vb)
-                if bad:
-                    hit = (key, va, vb, bad)
+                if va != vb:
+                    hit = (key, va, vb)
                     break
             if hit or len(ea) != len(eb):
-                key, va, vb, bad = hit if hit else (None, None, None, ['table length'])
+                key, va, vb = hit if hit else (None, None, None)
                 sub = clause
-                if name == 'slicetab' and key and _stop_before_start(a['len'], key[0], key[1]):
+                n = _show(cur).get('len', 0)
+                if name == 'slicetab' and key and _stop_before_start(n, key[0], key[1]):
                     sub = 'slice_stop_before_start'
-                if name == 'indextab' and key is not None and not (-a['len'] <= key < a['len']):
+                if name == 'indextab' and key is not None and not (-n <= key < n):
                     sub = 'index_out_of_range'
-                fails.append('%s: step %d: text[%s] on %r: %s differ: impl=%r expected=%r' % (
-                    sub, i, ('%r:%r' % key) if name == 'slicetab' else key, a['sem'], bad,
-                    va if isinstance(va, str) else {k: va.get(k) for k in bad if k in va} or va,
-                    vb if isinstance(vb, str) else {k: vb.get(k) for k in bad if k in vb} or vb))
+                fails.append('%s: step %d: text[%s] on %r: %s' % (
+                    sub, i, ('%r:%r' % key) if name == 'slicetab' else key, _show(cur).get('sem'), _diff(va, vb)))
                 break
         elif ra != rb:
-            fails.append('%s: step %d (%s): result %r, list semantics gives %r' % (clause, i, json.dumps(op), ra, rb))
+            fails.append('%s: step %d (%s) on %r: result %r, list semantics gives %r' % (
+                clause, i, json.dumps(op), _show(cur).get('sem'), ra, rb))
             break
     return fails
 
@@ -425,7 +498,7 @@ def buckets(case, impl_out):
 
 
 def nontrivial(case, impl_out):
-    return isinstance(impl_out, list) and impl_out[0]['len'] > 0
+    return isinstance(impl_out, list) and '"len":0,' not in impl_out[0]['v']
 
 
 def corpus():
@@ -595,21 +668,28 @@ def fan_ops(t, light=False):
     return ops
 
 
-def level1():
+def level1(tier):
+    """quick: every kind x (<=2 parts over all leaves, 3 parts over 4 leaves); thorough: <=3 parts over all leaves"""
     for k in KINDS:
-        for ps in seqs(LEAVES, 3):
-            yield node(k, ps)
+        if tier == 'quick':
+            for ps in seqs(LEAVES, 2):
+                yield node(k, ps)
+            for ps in seqs(['', 'a', 'B c', SYM], 3, 3):
+                yield node(k, ps)
+        else:
+            for ps in seqs(LEAVES, 3):
+                yield node(k, ps)
 
 
 def level2(tier):
     """Depth-2 trees with at least one node among the children."""
     if tier == 'quick':
-        inner_leaves, inner_max, top_leaves, top_max = ['a', 'B c', SYM], 1, ['', 'a', 'B c', SYM], 2
+        inner_leaves, inner_max, top_leaves, top_max, tops = ['a', 'B c', SYM], 1, ['', 'a', 'B c', SYM], 2, [KINDS[0], KINDS[1], KINDS[5]]
     else:
-        inner_leaves, inner_max, top_leaves, top_max = ['a', 'B c', SYM], 2, ['', 'a', SYM], 2
+        inner_leaves, inner_max, top_leaves, top_max, tops = ['a', 'B c', SYM], 2, ['', 'a', SYM], 2, KINDS
     inner = [node(k, ps) for k in KINDS for ps in seqs(inner_leaves, inner_max)]
     children = top_leaves + inner
-    for k in KINDS:
+    for k in tops:
         for ps in seqs(children, top_max, 1):
             if any(is_node(p) for p in ps):
                 yield node(k, ps)
@@ -691,7 +771,7 @@ def random_case(rng):
 def gen_cases(tier, rng, info):
     cases = []
     trees0 = list(LEAVES)
-    trees1 = list(level1())
+    trees1 = list(level1(tier))
     trees2 = list(level2(tier))
     trees3 = list(level3_samples())
     for t in trees0 + trees1 + trees2 + trees3:
@@ -704,14 +784,14 @@ def gen_cases(tier, rng, info):
             cases.append({'op': 'richtext', 'tree': t, 'fan': False,
                           'ops': [{'o': u}, {'o': 'slicetab', 'lo': -n - 2, 'hi': n + 2}, {'o': 'indextab', 'lo': -n - 2, 'hi': n + 2}]})
     info['exhaustive'] = True
-    info['scope'] = ('every tree in: %d leaves; %d depth-1 trees (6 kinds x <=3 parts over %r + one symbol); %d depth-2 trees (%s); '
+    info['scope'] = ('every tree in: %d leaves; %d depth-1 trees (6 kinds x <=3 parts over %r + one symbol; quick: 3 parts only over 4 leaves); %d depth-2 trees (%s); '
                      '%d depth-3 cascade shapes -- each x every slice (i, j) in [-n-2, n+2]^2 + None bounds x every index x every '
                      'operation (case, capfirst/capitalize, add_period, isalpha, %d split variants, %d prefixes/suffixes, %d needles, '
                      '+/radd/append/== with %d operands, == with all regroupings, join); plus %d depth-1 trees x 5 unary operations '
                      'followed by every slice of the result' % (
                          len(trees0), len(trees1), STRS, len(trees2),
-                         'quick: <=2 children from 4 leaves + 24 inner nodes with <=1 part' if tier == 'quick' else
-                         'thorough: <=2 children from 3 leaves + 78 inner nodes with <=2 parts',
+                         'quick: Text/Tag/Protected x <=2 children from 4 leaves + 24 inner nodes with <=1 part' if tier == 'quick' else
+                         'thorough: 6 kinds x <=2 children from 3 leaves + 78 inner nodes with <=2 parts',
                          len(trees3), len(SEPS) * 3, len(PREFIXES), len(NEEDLES), len(OPERANDS), len(second)))
     nrand = 4000 if tier == 'quick' else 150000
     for _ in range(nrand):
